@@ -48,6 +48,7 @@ type Effect struct {
 	Kind    string // "block" | "cache-put" | "cache-del"
 	Key     string
 	Value   []byte
+	DB      string // database address for cache effects
 }
 
 func NewEnv(work string) (*Env, error) {
